@@ -542,6 +542,12 @@ gotheaders(struct http_cookie * H, uint8_t * buf, size_t buflen)
 		H->res_head = NULL;
 		H->res.headers = NULL;
 
+		/*
+		 * The headers have been consumed from the buffered reader, so
+		 * our header-terminator scan needs to start over.
+		 */
+		H->hepos = 0;
+
 		/* Go back to reading headers. */
 		return (callback_read_header(H, 0));
 	}
